@@ -408,6 +408,9 @@ class SmartCloudSync(CloudSync):
             pass
         if remote_path:
             for ent in self.state.smart_listdir_path(REMOTE, remote_path):
+                if ent[REMOTE].exists in (TRASHED, MISSING):
+                    # a deleted remote file must not shadow a live one that re-uses its name
+                    continue
                 if self.translate(LOCAL, ent[REMOTE].path):
                     remote_ents[remote.basename(ent[REMOTE].path)] = ent
         names = set(local_dir_ents.keys()).union(remote_ents.keys())
